@@ -176,6 +176,7 @@ static std::vector<Viol> judge(const ReqInfo &q, const std::vector<Frame> &fresh
   std::vector<std::vector<Dm>> by(nDev);
   for (auto &m : dec) { int d = devOfMsg(m); if (d < 0) { snprintf(tb, sizeof tb, "frame from address %u which is no device of the node", m.src); v.push_back({"C08:foreign-source:" + cls, tb}); continue; } by[d].push_back(m); }
   for (int d = 0; d < nDev; d++) {
+    size_t v0 = v.size();        // violations of earlier devices must not stop the bookkeeping of this one
     bool target = q.isRq && node && (q.dst == 255 || q.dst == N->src(d)) && (q.dst == 255 || q.dst <= 253);
     bool claiming = g_now < claimUntil[d];
     bool edge = claimUntil[d] != 0 && g_now == claimUntil[d];          // the two timer builds differ at this one instant
@@ -191,12 +192,19 @@ static std::vector<Viol> judge(const ReqInfo &q, const std::vector<Frame> &fresh
         else if (q.isRq && m.dst != q.requester) { snprintf(tb, sizeof tb, "device %d sent the NAK for %lu to %u, requester is %u", d, q.P, m.dst, q.requester); v.push_back({"C08:nak-destination:" + cls, tb}); }
       }
     }
-    if (!v.empty()) continue;
-    if (edge && by[d].empty()) { C.count("request_at_claim_boundary_unanswered"); continue; }
+    if (v.size() > v0) continue;
+    if (edge && by[d].empty()) {
+      // at the last instant of the window either answer is right (the two timer builds differ by 1 ms); a build that
+      // already answers may have had its send refused, which arms a retry: one correct copy may follow later
+      C.count("request_at_claim_boundary_unanswered");
+      for (auto &e : exp) { if (e.pgn == 126996UL) mayProd[d] = true; if (e.pgn == 126998UL) mayConf[d] = true; }
+      continue; }
     if (claiming) { if (target) { nontrivial = true; C.count("requests_inside_claim_window"); } if (!by[d].empty()) { snprintf(tb, sizeof tb, "device %d sent %zu message(s) while claiming", d, by[d].size()); v.push_back({"C08:answered-while-claiming:" + cls, tb}); } continue; }
     if (!exp.empty()) nontrivial = true;
     if (strict) {
       if (!exp.empty() && by[d].empty()) { snprintf(tb, sizeof tb, "device %d (address %u) did not answer the request for %lu from %u", d, N->src(d), q.P, q.requester); v.push_back({"C08:unanswered:" + cls, tb}); continue; }
+      // the property does not fix the order of the transmit and the receive list
+      if (exp.size() == 2 && exp[0].pgn == 126464UL && exp[1].pgn == 126464UL && !by[d].empty() && same(exp[1], by[d][0])) std::swap(exp[0], exp[1]);
       size_t n = std::min(exp.size(), by[d].size());
       for (size_t i = 0; i < n; i++) if (!same(exp[i], by[d][i])) {
         const Dm &m = by[d][i];
@@ -204,8 +212,8 @@ static std::vector<Viol> judge(const ReqInfo &q, const std::vector<Frame> &fresh
         snprintf(tb, sizeof tb, "device %d request %lu: got pgn %lu dst %u %s%s, want pgn %lu dst %u %s", d, q.P, m.pgn, m.dst, hex(m.d.data(), m.d.size()).substr(0, 60).c_str(), m.complete ? "" : " (incomplete)", exp[i].pgn, exp[i].dst, hex(exp[i].d.data(), exp[i].d.size()).substr(0, 60).c_str());
         v.push_back({key, tb}); break;
       }
-      if (v.empty() && by[d].size() > exp.size()) { snprintf(tb, sizeof tb, "device %d request %lu: %zu message(s), %zu expected; extra pgn %lu", d, q.P, by[d].size(), exp.size(), by[d][exp.size()].pgn); v.push_back({"C08:extra-answer:" + cls, tb}); }
-      if (v.empty() && by[d].size() < exp.size()) { snprintf(tb, sizeof tb, "device %d request %lu: %zu message(s), %zu expected; missing %s", d, q.P, by[d].size(), exp.size(), exp[by[d].size()].kind.c_str()); v.push_back({"C08:unanswered:" + cls, tb}); }
+      if (v.size() == v0 && by[d].size() > exp.size()) { snprintf(tb, sizeof tb, "device %d request %lu: %zu message(s), %zu expected; extra pgn %lu", d, q.P, by[d].size(), exp.size(), by[d][exp.size()].pgn); v.push_back({"C08:extra-answer:" + cls, tb}); }
+      if (v.size() == v0 && by[d].size() < exp.size()) { snprintf(tb, sizeof tb, "device %d request %lu: %zu message(s), %zu expected; missing %s", d, q.P, by[d].size(), exp.size(), exp[by[d].size()].kind.c_str()); v.push_back({"C08:unanswered:" + cls, tb}); }
     } else {
       // the driver refused frames (now or earlier): every complete message must be an expected answer or the retry of a
       // product/configuration information whose earlier send failed; missing product/configuration information is owed
@@ -281,6 +289,9 @@ static bool runParse(const ReqInfo &q, bool record, bool claimRx = false, int lo
   }
   std::string cls; bool nontriv = false;
   std::vector<Viol> v = judge(q, fresh, refusals, q0 != 0, cls, nontriv);
+  if (getenv("C08_DEBUG")) { fprintf(stderr, "op %ld t=%llu refusals=%d q0=%u qn=%u fresh=%zu |", C.opline, (unsigned long long)g_now, (int)refusals, q0, qn, fresh.size());
+    for (auto &m : decodeFrames(fresh)) fprintf(stderr, " [%lu src%u %s %zu]", m.pgn, m.src, m.complete ? "ok" : "part", m.d.size());
+    for (int i = 0; i < nDev; i++) fprintf(stderr, " d%d:o%d%d m%d%d cu%llu", i, owedProd[i], owedConf[i], mayProd[i], mayConf[i], (unsigned long long)claimUntil[i]); fprintf(stderr, "\n"); }
   // a device that holds the claimed address and has the higher NAME must give the address up and claim another one (or
   // announce that it cannot): its 250 ms window starts now, whether or not the driver took its claim frame
   if (loser >= 0 && (mode == 1 || mode == 2)) { claimUntil[loser] = g_now + 250; C.count(N->src(loser) == 254 ? "device_driven_to_null_address" : "device_moved_to_next_address");
